@@ -226,7 +226,9 @@ theorem from3Points_equidistant (p0 p1 p2 : V2 ℝ) (c : Circle ℝ) (h : Circle
   rw [sabs_eq] at h
   split_ifs at h with hd
   have hdet : (p0.x - p1.x) * (p1.y - p2.y) - (p1.x - p2.x) * (p0.y - p1.y) ≠ 0 := by
-    intro h0; rw [h0, abs_zero] at hd; exact hd collinearTol_pos
+    intro h0; rw [h0, abs_zero] at hd
+    apply hd
+    exact mul_nonneg collinearTol_pos.le (mul_nonneg (Real.sqrt_nonneg _) (Real.sqrt_nonneg _))
   simp only [Option.some.injEq] at h
   subst h
   obtain ⟨k1, k2⟩ := circumcentre_identity p0.x p0.y p1.x p1.y p2.x p2.y hdet
@@ -235,12 +237,22 @@ theorem from3Points_equidistant (p0 p1 p2 : V2 ℝ) (c : Circle ℝ) (h : Circle
   rw [sqrtR]
   exact Real.mul_self_sqrt (add_nonneg (mul_self_nonneg _) (mul_self_nonneg _))
 
+/-- exactly collinear points (zero determinant) are rejected whatever their spacing, and so are
+    triples whose determinant is within the relative tolerance of zero -/
 theorem from3Points_collinear_rejected (p0 p1 p2 : V2 ℝ)
-    (h : |(p0.x - p1.x) * (p1.y - p2.y) - (p1.x - p2.x) * (p0.y - p1.y)| < collinearTol) :
+    (h : |(p0.x - p1.x) * (p1.y - p2.y) - (p1.x - p2.x) * (p0.y - p1.y)| ≤
+      collinearTol * (V2.norm (V2.sub p0 p1) * V2.norm (V2.sub p1 p2))) :
     Circle.from3Points p0 p1 p2 = none := by
   unfold Circle.from3Points
   dsimp only
   rw [sabs_eq, if_pos h]
+
+theorem from3Points_exactly_collinear_rejected (p0 p1 p2 : V2 ℝ)
+    (h : (p0.x - p1.x) * (p1.y - p2.y) - (p1.x - p2.x) * (p0.y - p1.y) = 0) :
+    Circle.from3Points p0 p1 p2 = none := by
+  apply from3Points_collinear_rejected
+  rw [h, abs_zero]
+  exact mul_nonneg collinearTol_pos.le (mul_nonneg (Real.sqrt_nonneg _) (Real.sqrt_nonneg _))
 
 /-! ### arcs and bounding boxes -/
 
